@@ -156,8 +156,8 @@ class Profile:
         else:
             raise ValueError(k)
 
-SIMPLE = [1, 2, 3, 9, 10, 12, 13, 22, 23, 24, 30, 32, 33, 40, 42, 43, 50, 52, 53]
-SEQSH = [5, 6, 7, 8, 11, 25, 26, 27, 34, 44, 54, 56]
+SIMPLE = [1, 2, 3, 9, 10, 12, 13, 22, 23, 24, 30, 32, 33, 40, 42, 43, 50, 52, 53, 60, 61, 62, 63, 64, 65, 66, 67, 68]
+SEQSH = [5, 6, 7, 8, 11, 25, 26, 27, 34, 44, 54, 56, 69]
 
 PROFILES = {
     'lifecycle': Profile('lifecycle', SIMPLE,
@@ -178,7 +178,7 @@ PROFILES = {
                               dobj=2, unwatch=0.7), nmock=2, nseq=3, args=(0, 1), terms=[(0, 0), (0, 0), (1, 0), (1, 1)],
                          prelude=('mock', 'seq', 'seq'), multi_mon=False, seglen=(10, 34),
                          bounds=((1, 1), (0, 1), (1, 2), (2, 2), (0, INF), (1, INF), (2, 3))),
-    'forbid': Profile('forbid', [12, 13, 14, 2, 9, 10, 1, 3, 33, 43, 53, 30, 40, 50, 23],
+    'forbid': Profile('forbid', [12, 13, 14, 2, 9, 10, 1, 3, 33, 43, 53, 30, 40, 50, 23, 62, 63, 68, 65, 67, 64],
                       dict(mock=1, expect=8, call=6, call_live=14, release=4, dmock=0.7), nmock=2,
                       bounds=((0, 0), (0, 0), (1, 1), (0, INF), (1, 2)), prelude=('mock',)),
     'clauses': Profile('clauses', [4, 8, 16, 21, 25, 31, 41, 51, 15, 55, 3, 10, 13],
